@@ -1179,9 +1179,12 @@ func verifyGitObjectAndAttestations(ctx context.Context, policy *State, target s
 			// explicitly not looking at the attestation
 			// that applies to the _push_
 			// thus, we also set threshold to 1
-			verifier.threshold = 1
+			// The verifiers are cached in the policy state, so the threshold
+			// is lowered on a copy rather than on the shared verifier
+			tagVerifier := *verifier
+			tagVerifier.threshold = 1
 
-			_, err := verifier.Verify(ctx, options.tagObjectID, nil)
+			_, err := tagVerifier.Verify(ctx, options.tagObjectID, nil)
 			if err == nil {
 				// Signature verification succeeded
 				tagObjVerified = true
